@@ -369,6 +369,7 @@ def run(tier, seed):
     ck.extra["get_prompt_over_simtransport"] = nchan
     # ---- cache behaviour: classify, register a session, classify again (a stale lru_cache shows as a diff)
     cache_cases(ck, g, mout is not None)
+    table_edit_histories(ck, g, cases)
     # ---- update_regenerates on the real objects (the generated theorem states the same for the model)
     for sn in PARTIAL:
         conn = real_conn(sn)
@@ -427,6 +428,104 @@ def probe_invalid_patterns(ck, g):
                                       f"_determine_current_priv({prompt!r}) raises {raised}"},
                              "a privilege level pattern does not compile: every prompt classification raises re.error", None)
                 return
+
+
+def spec_classify(conn, prompt):
+    """independent statement of what classification must be: a function of the CURRENT table only"""
+    return [l.name for l in conn.privilege_levels.values()
+            if not any(x in prompt for x in l.not_contains) and re.search(l.pattern, prompt, FLAGS)]
+
+
+def _edits(conn, prompts):
+    """edits of a privilege table that leave every pattern STRING untouched (so the joined channel pattern does not
+    change): not_contains entries added / removed, levels renamed or replaced by an equal-pattern level, previous_priv
+    changed.  Each edit is (label, function applying it to a driver)."""
+    from scrapli.driver.network.base_driver import PrivilegeLevel
+    out = []
+    names = list(conn.privilege_levels)
+    for n in names:
+        hit = next((p for p in prompts if n in spec_classify(conn, p)), None)
+        if hit:
+            x = hit.strip()[-3:] if len(hit.strip()) >= 3 else hit.strip()
+            out.append((f"append {x!r} to not_contains of {n}",
+                        lambda c, n=n, x=x: c.privilege_levels[n].not_contains.append(x)))
+        if conn.privilege_levels[n].not_contains:
+            out.append((f"clear not_contains of {n}", lambda c, n=n: c.privilege_levels[n].not_contains.clear()))
+            out.append((f"replace not_contains list of {n} by []", lambda c, n=n: setattr(c.privilege_levels[n], "not_contains", [])))
+
+        def rename(c, n=n):
+            items = list(c.privilege_levels.items())
+            c.privilege_levels.clear()
+            for k, l in items:
+                if k == n:
+                    l = PrivilegeLevel(pattern=l.pattern, name=n + "_renamed", previous_priv=l.previous_priv, deescalate=l.deescalate,
+                                       escalate=l.escalate, escalate_auth=l.escalate_auth, escalate_prompt=l.escalate_prompt,
+                                       not_contains=list(l.not_contains))
+                    k = n + "_renamed"
+                elif l.previous_priv == n:     # keep the table coherent: who pointed at the old name points at the new one
+                    l.previous_priv = n + "_renamed"
+                c.privilege_levels[k] = l
+        out.append((f"replace level {n} by an equal-pattern level named {n}_renamed", rename))
+
+        def drop(c, n=n):
+            del c.privilege_levels[n]
+        if len(names) > 1:
+            out.append((f"delete level {n}", drop))
+    if len(names) > 1:
+        out.append((f"previous_priv of {names[-1]} := {names[0]}", lambda c: setattr(c.privilege_levels[names[-1]], "previous_priv", names[0])))
+    return out
+
+
+def table_edit_histories(ck, g, cases):
+    """multi-step histories on ONE long-lived driver: classify prompts (results are now memoised), edit the privilege
+    table WITHOUT touching any pattern string, call update_privilege_levels(), classify the same prompts again — the
+    answers must be (a) what the current table says (spec_classify) and (b) what a brand-new driver given the same
+    table answers.  Single edits and chains of two edits, on every platform table incl. the session tables."""
+    from scrapli.exceptions import ScrapliPrivilegeError
+    n_hist = 0
+    for tname, conn0, sessions in g.drivers():
+        cls = type(conn0)
+        kw = dict(host="localhost", auth_username="u", auth_password="p", auth_strict_key=False)
+
+        def fresh():
+            c = cls(**kw)
+            for s in sessions:
+                c.register_configuration_session(session_name=s)
+            return c
+        prompts = [w.decode("ascii").strip() for sn, _, _, w, kind in cases if table_of_suite(sn) == tname and w.isascii()]
+        prompts = list(dict.fromkeys(prompts))[:8]
+        if not prompts:
+            continue
+        edits = _edits(conn0, prompts)
+        chains = [[e] for e in edits] + [[edits[i], edits[(i + 3) % len(edits)]] for i in range(0, len(edits), 4) if len(edits) > 3]
+        for chain in chains:
+            old, new = fresh(), fresh()
+            for p in prompts:
+                real_classify(old, p)          # the history that matters: answers are cached now
+            labels = []
+            ok_chain = True
+            for label, fn in chain:
+                try:
+                    fn(old); old.update_privilege_levels()
+                    fn(new); new.update_privilege_levels()
+                except Exception as e:   # an edit the code itself rejects is not a history of the property
+                    ok_chain = False
+                    ck.extra["table_edit_rejected"] = ck.extra.get("table_edit_rejected", 0) + 1
+                    break
+                labels.append(label)
+                for p in prompts:
+                    got, want, spec = real_classify(old, p), real_classify(new, p), spec_classify(old, p)
+                    ck.case(("edit", tname, tuple(labels), p), nontrivial=True, tags=("table-edit-history", f"suite={tname}"))
+                    if got != spec or got != want:
+                        ck.violation({"suite": tname, "prompt": p, "sessions_registered_first": sessions, "table_edits": list(labels),
+                                      "long_lived_driver": got, "fresh_driver_same_table": want, "current_table_says": spec,
+                                      "what": "after editing the privilege table (no pattern string changed) and update_privilege_levels(), "
+                                              "the long-lived driver's classification is not the one of the current table (stale cache)"},
+                                     "stale prompt classification after a table edit + update_privilege_levels()", None)
+                    else:
+                        ck.traces_validated += 1
+            n_hist += ok_chain
+    ck.extra["table_edit_histories"] = n_hist
 
 
 def cache_cases(ck, g, have_model):
@@ -491,6 +590,14 @@ def replay(path):
         except Exception as e:   # noqa: BLE001
             print(f"suite {sn} (sessions {v['sessions_for_invalid_pattern']}): _determine_current_priv({v['prompt']!r}) raised {e!r}")
             return 1
+    if "table_edits" in v:
+        print("table-edit history (see tools/props/c05.py table_edit_histories): long-lived driver", v["long_lived_driver"],
+              "fresh driver", v["fresh_driver_same_table"], "current table says", v["current_table_says"], "after", v["table_edits"])
+        import random
+        ck = Check(PID, "quick", 0)
+        cases = [(sn, "", [], v["prompt"].encode(), "replay")]
+        table_edit_histories(ck, g, cases)
+        return 1 if ck.violations else 0
     if "sessions_registered" in v:   # stale-cache case: long-lived driver vs brand-new driver
         from scrapli.driver.core import EOSDriver, NXOSDriver
         cls = EOSDriver if base_of(sn) == "eos" else NXOSDriver
